@@ -304,13 +304,31 @@ static int big_roundtrip(int alg, unsigned long long n)
 static int f12(void) { int b = big_roundtrip(MTBL_COMPRESSION_ZLIB, 0x100001000ULL); b |= big_roundtrip(MTBL_COMPRESSION_ZLIB, 0xFFFFF000ULL); return b; }  /* second call: abort on the pinned tree */
 static int f13(void) { return big_roundtrip(MTBL_COMPRESSION_SNAPPY, 0x100001000ULL); }
 
+/* F14: zlib, 1 GiB of incompressible bytes: the compressed form has >= 2^30 bytes, the decompressor's first guess (4x) does not fit zlib's 32-bit avail_out */
+static int f14(void)
+{
+	size_t n = (1ULL << 30) + 4096;
+	uint8_t *buf = malloc(n); if (!buf) { printf("cannot allocate\n"); return 2; }
+	uint64_t x = 0x9E3779B97F4A7C15ULL;
+	for (size_t i = 0; i + 8 <= n; i += 8) { x ^= x << 13; x ^= x >> 7; x ^= x << 17; memcpy(buf + i, &x, 8); }
+	uint8_t *out = NULL, *back = NULL; size_t lo = 0, lb = 0;
+	mtbl_res r = mtbl_compress_level(MTBL_COMPRESSION_ZLIB, 1, buf, n, &out, &lo);
+	printf("zlib level 1, %zu incompressible bytes: compress -> %s (%zu bytes)\n", n, r == mtbl_res_success ? "success" : "failure (fine)", lo);
+	if (r != mtbl_res_success) { free(buf); return 0; }
+	r = mtbl_decompress(MTBL_COMPRESSION_ZLIB, out, lo, &back, &lb);
+	int bad = !(r == mtbl_res_success && lb == n && memcmp(back, buf, n) == 0);
+	printf("decompress -> %s, %zu bytes back, %s\n", r == mtbl_res_success ? "success" : "failure", lb, bad ? "NOT the input (expected the input back)" : "equal to the input (expected)");
+	free(out); if (r == mtbl_res_success) free(back); free(buf);
+	return bad;
+}
+
 int main(int argc, char **argv)
 {
 	if (argc < 3) return 2;
 	wd = argv[2];
 	setvbuf(stdout, NULL, _IONBF, 0);
-	int (*fs[])(void) = {f1, f2, f3, f4, f5, f6, f7, f8, f9, f10, f11, f12, f13};
+	int (*fs[])(void) = {f1, f2, f3, f4, f5, f6, f7, f8, f9, f10, f11, f12, f13, f14};
 	int n = atoi(argv[1] + 1);
-	if (n < 1 || n > 13) return 2;
+	if (n < 1 || n > 14) return 2;
 	return fs[n - 1]();
 }
